@@ -25,7 +25,9 @@ def generate(ctx):
     th = ctx.tier == "thorough"
     for i in range(2200 if th else 110):
         kind = KINDS[i % len(KINDS)]
-        d = {"kind": kind, "seed": rng.randrange(1 << 30), "nassign": rng.randint(1, 6)}
+        d = {"kind": kind, "seed": rng.randrange(1 << 30), "nassign": rng.randint(1, 6),
+             # the component has already been run (and again between assignments) when its properties are assigned
+             "used_before": rng.random() < 0.5}
         if kind == "neuron":
             d.update(cls=fac.NEURONS[(i // 5) % 8], c0={"dt": rng.choice(DTS), "batchsz": rng.randint(1, 3)})
         elif kind == "synapse":
@@ -288,6 +290,19 @@ def run_case(ctx, desc):
     cfg = dict(desc["c0"])
     for si, (k, v) in enumerate(desc["seq"]):
         rdesc = {**desc, "seq": desc["seq"][: si + 1]}
+        if desc.get("used_before") and si in (0, 2):
+            try:
+                # learned adaptation is not part of the cleared state: keep it frozen while the component is being used
+                # (adapt=None follows the training flag)
+                target = A if isinstance(A, torch.nn.Module) else None
+                if target is not None:
+                    target.eval()
+                ad.drive(A, torch.Generator().manual_seed(desc["seed"] + 17 + si))
+                if target is not None:
+                    target.train()
+                ctx.count("assignments_after_use")
+            except Exception as e:  # noqa: BLE001
+                return ctx.violation(ctx.exc_signature(e, f"drive_before_assignment.{kind}"), f"{type(e).__name__}: {str(e)[:160]}", rdesc)
         before = ad.observe(A)
         ctx.case(f"{kind}/{sub}/set_{k}")
         ctx.count("assignments_checked")
